@@ -67,7 +67,16 @@ class IC10Register:
                 return self._lifetime
 
             for node in self.nodes_writing:
-                if isinstance(node.scope(), nodes.Module):
+                scope = node.scope()
+                if isinstance(node, nodes.FunctionDef) and any(
+                    not isinstance(reader.scope(), nodes.Module)
+                    for reader in self.nodes_reading
+                ):
+                    # the result register of a function called from another
+                    # function is written whenever that one runs, not between
+                    # 'def' and the line of the call
+                    scope = node.parent.scope()
+                if isinstance(scope, nodes.Module):
                     self._lifetime = range(0, sys.maxsize)
                     break
 
